@@ -1176,8 +1176,10 @@ class PyCdlib:
                     child_links.append(new_record)
 
                 if is_dir:
-                    if new_record.rock_ridge is not None and new_record.rock_ridge.relocated_record():
-                        self._rr_moved_record = new_record
+                    if not dots and new_record.rock_ridge is not None and new_record.rock_ridge.relocated_record():
+                        # A relocated directory; the directory it is listed
+                        # in is the one relocated directories are moved to.
+                        self._rr_moved_record = dir_record
 
                     if new_record.is_dotdot() and new_record.rock_ridge is not None and new_record.rock_ridge.parent_link_record_exists():
                         # Make sure to mark a dotdot record with a parent link
